@@ -144,6 +144,12 @@ func (session *clientSession) processInput(maxDuration time.Duration) (chan base
 			}
 			session.logger.Debugf("received new: %v", &chunk)
 			session.lastChunk = &chunk
+			if session.inputClosed.Peek() {
+				// The input channel has been closed and the buffer is draining what remains in it at the same time: this
+				// chunk may have been taken ahead of older ones. Don't forward it out of turn, hand it back.
+				session.logger.Infof("stop requested (normal stage), hand back %s", chunk.String())
+				return session.collectLeftovers(nil, endImmediately), noReconnect
+			}
 
 		case <-maxSessionDurationSignal:
 			session.logger.Info("max session duration reached, stopping to reconnect")
